@@ -2647,7 +2647,8 @@ class CaseExpr(ColExpr):
             self._ftype = Ftype.WINDOW
         else:
             raise FunctionTypeError(
-                "incompatible function types found in case statement: , ".join(val_ftypes),
+                "incompatible function types found in case statement: "
+                + ", ".join(sorted(ftype.name.lower() for ftype in val_ftypes)),
                 source=self._fn_id,
             )
 
